@@ -45,6 +45,10 @@ THEOREMS = [
     "Nix.C16.C16_columns_units",
     "Nix.C16.C16_schema_frame",
     "Nix.C16.C16_append_column_named",
+    # rows / tables handed over as NumPy structured arrays are taken by position (Pure/FrameRec.lean)
+    "Nix.C16.C16_record_rows_positional",
+    "Nix.C16.C16_record_creation_positional",
+    "Nix.C16.C16_record_histories",
     # shape of the source (Generated/FrameShape.lean, regenerated on every run)
     "Nix.C16.C16_handles_stateless",
     "Nix.C16.C16_guards_as_modelled",
@@ -155,6 +159,13 @@ def row_cells(r):
     return [cell(r[n]) for n in r.dtype.names]
 
 
+def split_form(line):
+    """(line without its presentation object, the presentation object or None)"""
+    if line and isinstance(line[-1], dict):
+        return line[:-1], line[-1]
+    return line, None
+
+
 def err_name(e):
     nix, np = _nix()
     from nixio import exceptions as X
@@ -188,6 +199,7 @@ class Session:
         self.handles = []       # live DataFrame objects of the frame under test (kept across operations)
         self.cur = 0
         self.count = 0
+        self.nsrc = 0
 
     def close(self):
         try:
@@ -247,6 +259,63 @@ class Session:
         }
 
     # -- operations --------------------------------------------------------------------
+    def rec(self, rows, form, fields=None):
+        """the rows as a NumPy structured array, as the presentation object `form` of the line describes it:
+        fields form["rec"] = [[name, type], ...] (dtype.names order; `fields` when absent), laid out in memory in the
+        order form["mem"] (rank of each field) with form["pad"] unused bytes; form["how"]: "array" (built by the
+        caller), "view" (multi-field selection table[[names]] of a bigger table), "voids" (list of np.void records),
+        "frame" (what read_rows / frame[:] of another data frame with those columns returns)"""
+        nix, np = _nix()
+        fields = form.get("rec") or fields
+        k = len(fields)
+        names = [str(f[0]) for f in fields]
+        tup = [tuple(py(v) for v in r) for r in rows]
+        n = len(tup)
+        how = form.get("how", "array")
+        if how == "frame":
+            self.nsrc += 1
+            cd = OrderedDict((nm, np_type(t, 0)) for nm, t in fields)
+            src = self.block.create_data_frame("src%d" % self.nsrc, "c16.src", col_dict=cd, data=tup or None)
+            if n and form.get("read", "rows") == "rows":
+                return src.read_rows(list(range(n)))
+            return src[:]
+        widths = [max([1] + [len(t[j]) for t in tup if isinstance(t[j], str)]) for j in range(k)]
+        fmts = [np.dtype("U%d" % w) if f[1] == "text" else np.dtype(np_type(f[1], 0)) for f, w in zip(fields, widths)]
+        mem = list(form.get("mem") or range(k))
+        pad = int(form.get("pad", 0))
+        order = sorted(range(k), key=lambda j: mem[j])
+        if how == "view":
+            junk = "_"
+            while junk in names:
+                junk += "_"
+            base_dt = []
+            for pos, j in enumerate(order):
+                if pad and pos == (pad % (k + 1)):
+                    base_dt.append((junk, np.int16))
+                base_dt.append((names[j], fmts[j]))
+            if pad and (pad % (k + 1)) == k:
+                base_dt.append((junk, np.int16))
+            base = np.zeros(n, dtype=np.dtype(base_dt))
+            for j in range(k):
+                if n:
+                    base[names[j]] = [t[j] for t in tup]
+            return base[list(names)]
+        if mem == list(range(k)) and not pad:
+            dt = np.dtype(list(zip(names, fmts)))
+        else:
+            off, cur = [0] * k, pad // 2
+            for j in order:
+                off[j] = cur
+                cur += fmts[j].itemsize
+            dt = np.dtype({"names": names, "formats": fmts, "offsets": off, "itemsize": cur + pad - pad // 2})
+        arr = np.zeros(n, dtype=dt)
+        for j in range(k):
+            if n:
+                arr[names[j]] = [t[j] for t in tup]
+        if how == "voids":
+            return list(arr)
+        return arr
+
     def _rows(self, rows, pres):
         if rows is None:
             return None
@@ -278,17 +347,23 @@ class Session:
 
     def _run(self, line, pres):
         nix, np = _nix()
+        line, form = split_form(line)
         op, a = line[0], line[1:]
         df = self.df
         if op == "create_dict":
             cd = OrderedDict((n, np_type(t, pres + i)) for i, (n, t) in enumerate(a[0]))
-            return self._create(col_dict=cd, data=self._rows(a[1], pres), compress=(pres % 5 == 4))
+            data = self.rec(a[1], form) if form else self._rows(a[1], pres)
+            return self._create(col_dict=cd, data=data, compress=(pres % 5 == 4))
         if op == "create_names_types":
             names = a[0] if pres % 3 == 0 else (tuple(a[0]) if pres % 3 == 1 else np.array(a[0], dtype=object))
             tys = [np_type(t, pres + i) for i, t in enumerate(a[1])]
-            return self._create(col_names=names, col_dtypes=tys, data=self._rows(a[2], pres))
+            data = self.rec(a[2], form) if form else self._rows(a[2], pres)
+            return self._create(col_names=names, col_dtypes=tys, data=data)
         if op == "create_names_data":
-            return self._create(col_names=list(a[0]), data=self._rows(a[1], pres))
+            data = self.rec(a[1], form) if form else self._rows(a[1], pres)
+            return self._create(col_names=list(a[0]), data=data)
+        if op == "create_struct" and form:
+            return self._create(data=self.rec(a[1], form, fields=a[0]))
         if op == "create_struct":
             rows = [tuple(py(v) for v in r) for r in a[1]]
             dts = []
@@ -309,7 +384,7 @@ class Session:
             self.reopen()
             return None
         if op == "append_rows":
-            df.append_rows(self._rows(a[0], pres))
+            df.append_rows(self.rec(a[0], form) if form else self._rows(a[0], pres))
             return None
         if op == "append_column":
             col = [py(v) for v in a[0]]
@@ -323,9 +398,14 @@ class Session:
                 df.append_column(col, name=a[1], datatype=dt)
             return None
         if op == "write_rows":
-            df.write_rows(self._rows(a[0], pres), list(a[1]) if pres % 2 else np.array(a[1], dtype=int))
+            rows = self.rec(a[0], form) if form else self._rows(a[0], pres)
+            df.write_rows(rows, list(a[1]) if pres % 2 else np.array(a[1], dtype=int))
             return None
         if op == "write_row_flat":
+            if form:
+                # one np.void record
+                df.write_rows(self.rec([a[0]], form)[0], list(a[1]))
+                return None
             vals = [py(v) for v in a[0]]
             df.write_rows(tuple(vals) if pres % 2 else vals, list(a[1]))
             return None
@@ -336,6 +416,9 @@ class Session:
                 kw["index"] = a[1]
             if a[2] is not None:
                 kw["name"] = a[2]
+            if pres % 4 == 1 and col and len({type(x) for x in col}) == 1:
+                # the column as an ndarray (e.g. what read_columns of another frame returns: text as objects)
+                col = np.array(col, dtype=object) if isinstance(col[0], str) else np.array(col)
             df.write_column(col, **kw)
             return None
         if op == "write_cell_pos":
@@ -437,6 +520,140 @@ def gen_rows(rng, types, n, mode="typed"):
     return [gen_row(rng, types, mode) for _ in range(n)]
 
 
+INT_TYPES = ["i8", "i16", "i32", "i64", "u8"]
+FIELD_NAMES = ["n", "value", "flag", "label", "x0", "trial", "amp", "t", "col", "F", "k2", "ü", "f0", "f1", "a", "b"]
+
+
+def fits(t, v):
+    """cell v converts exactly the same way cell by cell (tuple path) and field by field (structured cast)"""
+    k, x = v
+    if t == "text":
+        return k == "s"
+    if k == "s":
+        return False
+    if t == "bool":
+        return True
+    if t == "f64":
+        return k != "i" or abs(x) <= 2 ** 53
+    lo, hi = RANGE[t]
+    if k == "b":
+        return True
+    if k == "i":
+        return lo <= x <= hi
+    fr = Fraction(x)
+    return lo + 1 <= fr <= hi - 1
+
+
+def field_type(rng, cells, t):
+    """a field type a structured array can hold the cells of one column in (None: there is none)"""
+    kinds = {c[0] for c in cells}
+    if len(kinds) > 1:
+        return None
+    if not kinds:
+        return t or "i64"
+    k = kinds.pop()
+    if k != "i":
+        return {"s": "text", "b": "bool", "f": "f64"}[k]
+    cands = [x for x in INT_TYPES if all(RANGE[x][0] <= c[1] <= RANGE[x][1] for c in cells)]
+    if not cands:
+        return None
+    if t in cands and rng.random() < 0.6:
+        return t
+    return rng.choice(cands)
+
+
+def field_names(rng, tgt, k):
+    """k distinct non-empty field names: the target's column names, some / all of them renamed, or the same names
+    at other positions (rotated, two swapped) — what is stored must not depend on them"""
+    uniq = []
+    for n in tgt:
+        if n and n not in uniq:
+            uniq.append(n)
+    tgt = uniq[:k]
+    fresh = [n for n in FIELD_NAMES if n not in tgt]
+    rng.shuffle(fresh)
+    while len(tgt) < k:
+        tgt.append(fresh.pop())
+    mode = rng.choice(["same", "renamed", "renamed", "renamed", "rotated", "swapped", "fresh"])
+    out = list(tgt)
+    if mode == "renamed":
+        hit = [j for j in range(k) if rng.random() < 0.5] or [rng.randrange(k)]
+        if len(hit) == k and k > 1:
+            hit.pop(rng.randrange(k))
+        for j in hit:
+            out[j] = fresh.pop()
+    elif mode == "rotated" and k > 1:
+        out = out[1:] + out[:1]
+    elif mode == "swapped" and k > 1:
+        i, j = rng.sample(range(k), 2)
+        out[i], out[j] = out[j], out[i]
+    elif mode == "fresh":
+        out = [fresh.pop() for _ in range(k)]
+    else:
+        mode = "same"
+    return out, mode
+
+
+def gen_layout(rng, k, stats=None, allow_frame=True):
+    """memory layout and origin of a structured array with k fields"""
+    how = rng.choice(["array", "array", "view", "view", "voids"] + (["frame", "frame"] if allow_frame else []))
+    form = {"how": how}
+    if how == "frame":
+        form["read"] = rng.choice(["rows", "all"])
+    else:
+        if k > 1 and rng.random() < 0.6:
+            mem = list(range(k))
+            while mem == list(range(k)):
+                rng.shuffle(mem)
+            form["mem"] = mem
+        if rng.random() < 0.4:
+            form["pad"] = rng.choice([1, 2, 3, 5, 8])
+    if stats is not None:
+        key = "form." + how + (".permuted" if "mem" in form else "") + (".padded" if "pad" in form else "")
+        stats[key] = stats.get(key, 0) + 1
+    return form
+
+
+def gen_form(rng, rows, tgt_names, tgt_types, stats=None, struct=False):
+    """a presentation of `rows` as a NumPy structured array (None when they cannot be one: ragged rows, a column of
+    mixed kinds, a cell the positional casts treat differently).  struct=True: the fields are the columns."""
+    if rows is None or any(len(r) != len(rows[0]) for r in rows):
+        return None
+    k = len(rows[0]) if rows else len(tgt_types)
+    if k == 0:
+        return None
+    ftypes = []
+    for j in range(k):
+        t = tgt_types[j] if j < len(tgt_types) else None
+        cells = [r[j] for r in rows]
+        if t is not None and not all(fits(t, c) for c in cells):
+            return None
+        ft = t if struct else field_type(rng, cells, t)
+        if ft is None:
+            return None
+        ftypes.append(ft)
+    form = gen_layout(rng, k, stats)
+    if not struct:
+        names, mode = field_names(rng, list(tgt_names), k)
+        form["rec"] = [[n, t] for n, t in zip(names, ftypes)]
+        if stats is not None:
+            stats["form.names." + mode] = stats.get("form.names." + mode, 0) + 1
+    return form
+
+
+def level(rows, what):
+    """give every row the length of the one made too short / too long (a structured array is rectangular)"""
+    if what == "short":
+        k = min(len(r) for r in rows)
+        return [r[:k] for r in rows]
+    k = max(len(r) for r in rows)
+    return [r + [["i", 1]] * (k - len(r)) for r in rows]
+
+
+def with_form(line, form):
+    return line if form is None else line + [form]
+
+
 def gen_schema(rng, maxcols=6):
     k = rng.choice([1, 1, 2, 2, 3, 3, 4, 5, 6][:3 + maxcols])
     names = rng.sample(NAME_POOL, k)
@@ -487,8 +704,14 @@ def gen_create(rng, stats):
     stats["create." + variant + ("" if not fault else "." + fault)] = \
         stats.get("create." + variant + ("" if not fault else "." + fault), 0) + 1
     data = rows if (n or rng.random() < 0.5) else None
+    as_rec = rng.random() < 0.3
+    if as_rec and fault in ("short_row", "long_row") and n:
+        # another number of fields than there are columns
+        rows = level(rows, "short" if fault == "short_row" else "long")
+        data = rows
     if variant == "dict":
-        return ["create_dict", [[a, b] for a, b in zip(names, types)], data], pres
+        form = gen_form(rng, data, names, types, stats) if as_rec else None
+        return with_form(["create_dict", [[a, b] for a, b in zip(names, types)], data], form), pres
     if variant == "names_types":
         if fault == "dup_name" and len(names) > 1:
             names = list(names)
@@ -496,12 +719,22 @@ def gen_create(rng, stats):
         tys = list(types)
         if fault == "len_mismatch":
             tys = tys[:-1] if rng.random() < 0.5 else tys + ["i64"]
-        return ["create_names_types", list(names), tys, data], pres
+        form = gen_form(rng, data, names, types, stats) if as_rec else None
+        return with_form(["create_names_types", list(names), tys, data], form), pres
     if variant == "names_data":
         if fault == "no_types":
             return ["create_names_data", list(names), None], pres
         if fault == "empty_data":
             return ["create_names_data", list(names), []], pres
+        if as_rec and fault in (None, "dup_name"):
+            # a structured array: the column types are its field types (small integer types included)
+            rows = gen_rows(rng, types, max(n, 1))
+            form = gen_form(rng, rows, names, types, stats)
+            if form is not None:
+                if fault == "dup_name" and len(names) > 1:
+                    names = list(names)
+                    names[-1] = names[0]
+                return ["create_names_data", list(names), rows, form], pres
         # types are derived from the first row: make every row well-typed for the derived schema
         dtypes = [{"i8": "i64", "i16": "i64", "i32": "i64", "u8": "i64"}.get(t, t) for t in types]
         rows = gen_rows(rng, dtypes, max(n, 1))
@@ -517,7 +750,8 @@ def gen_create(rng, stats):
     rows = gen_rows(rng, types, n)
     if n == 0:
         stats["create.struct.empty"] = stats.get("create.struct.empty", 0) + 1
-    return ["create_struct", [[a, b] for a, b in zip(names, types)], rows], pres
+    form = gen_form(rng, rows, names, types, stats, struct=True) if rng.random() < 0.7 else None
+    return with_form(["create_struct", [[a, b] for a, b in zip(names, types)], rows], form), pres
 
 
 WRITE_OPS = ["append_rows", "append_column", "write_rows", "write_row_flat", "write_column", "write_cell_pos",
@@ -570,10 +804,13 @@ def gen_op(rng, st, stats):
                 bad = gen_fault(rng, types[c], allow_text_fault=True)
                 if bad is not None:
                     rows[i][c] = bad
+            if what != "cell" and rng.random() < 0.4:
+                rows = level(rows, what)
             count("." + what)
         else:
             count()
-        return ["append_rows", rows], pres
+        form = gen_form(rng, rows, names, types, stats) if rng.random() < 0.35 else None
+        return with_form(["append_rows", rows], form), pres
     if kind == "append_column":
         t = rng.choice(TYPES)
         name = rng.choice([x for x in NAME_POOL if x not in names] or ["zz"])
@@ -612,7 +849,8 @@ def gen_op(rng, st, stats):
                 if fault:
                     idx = rng.choice([[bad_row(rng, n)], [0, 1] if n > 1 else [0, 0]])
                 count()
-                return ["write_row_flat", row, idx], pres
+                form = gen_form(rng, [row], names, types, stats) if rng.random() < 0.35 else None
+                return with_form(["write_row_flat", row, idx], form), pres
         idx = [legal_row(rng, n)] if rng.random() < 0.5 else inc_list(rng, n)
         rows = gen_rows(rng, types, len(idx), "typed" if typed else "mixed")
         if fault:
@@ -642,7 +880,8 @@ def gen_op(rng, st, stats):
             count("." + what)
         else:
             count(".single" if len(idx) == 1 else ".multi")
-        return ["write_rows", rows, idx], pres
+        form = gen_form(rng, rows, names, types, stats) if rng.random() < 0.35 else None
+        return with_form(["write_rows", rows, idx], form), pres
     if kind == "write_column":
         c = rng.choice([0, m - 1, rng.randrange(m)])
         t = types[c]
@@ -1051,31 +1290,54 @@ def oracle_history(ctx, k, rng, nops, fixed=None):
             names = [x for x in names if x != ""] or ["a"]
             types = types[:len(names)]
             n0 = rng.choice([0, 1, 2, 3, 5])
+            types0 = list(types)
             if variant == "names_data":
                 types = [{"i8": "i64", "i16": "i64", "i32": "i64", "u8": "i64"}.get(t, t) for t in types]
                 n0 = max(n0, 1)
             if variant == "struct":
                 n0 = max(n0, 1)
+            as_rec = rng.random() < 0.45
+            if variant == "names_data" and as_rec:
+                # rows as a structured array: the columns get its field types
+                types = list(types0)
             rows = gen_rows(rng, types, n0)
             data = rows if (n0 or rng.random() < 0.5) else None
             cols = [[a, b] for a, b in zip(names, types)]
             create = {"dict": ["create_dict", cols, data], "names_types": ["create_names_types", names, types, data],
                       "names_data": ["create_names_data", names, rows], "struct": ["create_struct", cols, rows]}[variant]
+            if variant == "struct":
+                create = with_form(create, gen_form(rng, rows, names, types, struct=True) if rng.random() < 0.8 else None)
+            elif as_rec:
+                form = gen_form(rng, data, names, types)
+                if form is not None and variant == "names_data":
+                    # the derived column types are the field types
+                    form["rec"] = [[fl[0], t] for fl, t in zip(form["rec"], types)]
+                create = with_form(create, form)
+                if form is None and variant == "names_data":
+                    create[2] = rows = gen_rows(rng, [{"i8": "i64", "i16": "i64", "i32": "i64", "u8": "i64"}.get(t, t)
+                                                      for t in types], n0)
             ops = None
+            create = {"line": create, "expect": "accept", "pres": rng.randrange(1000)}
+        if isinstance(create, list):
+            create = {"line": create, "expect": "accept", "pres": rng.randrange(1000)}
         hist.append(create)
-        out = s.run(create, rng.randrange(1000))
+        out = s.run(create["line"], create.get("pres", 0))
+        create, cform = split_form(create["line"])
         evals += 1
         if "ok" not in out:
-            return evals, fail("a legal creation (%s) was refused" % create[0], out, "frame created",
-                               "nixio/block.py:create_data_frame")
+            return evals, fail("a legal creation (%s%s) was refused" % (create[0], describe_form(cform)), out,
+                               "frame created", "nixio/block.py:create_data_frame")
         if create[0] == "create_names_types":
             sh = Shadow(create[1], create[2], create[3] or [])
         elif create[0] == "create_names_data":
-            sh = Shadow(create[1], [{"i": "i64", "f": "f64", "b": "bool", "s": "text"}[v[0]] for v in create[2][0]],
-                        create[2])
+            if cform:
+                sh = Shadow(create[1], [fl[1] for fl in cform["rec"]], create[2])
+            else:
+                sh = Shadow(create[1], [{"i": "i64", "f": "f64", "b": "bool", "s": "text"}[v[0]] for v in create[2][0]],
+                            create[2])
         else:
             sh = Shadow([c[0] for c in create[1]], [c[1] for c in create[1]], create[2] or [])
-        f = check(sh, create[0])
+        f = check(sh, create[0] + describe_form(cform))
         if f:
             return evals, f
         # ---- operations
@@ -1089,8 +1351,11 @@ def oracle_history(ctx, k, rng, nops, fixed=None):
                 if j >= nops:
                     break
                 line, expect = oracle_op(rng, sh)
+            pres = ops[j].get("pres") if ops is not None else None
+            if pres is None:
+                pres = rng.randrange(1000)
             j += 1
-            hist.append({"line": line, "expect": expect})
+            hist.append({"line": line, "expect": expect, "pres": pres})
             evals += 1
             if line[0] == "handle":
                 s.use(line[1])
@@ -1110,18 +1375,20 @@ def oracle_history(ctx, k, rng, nops, fixed=None):
                     return evals, f
                 continue
             before = sh.copy()
-            out = s.run(line, rng.randrange(1000))
+            out = s.run(line, pres)
+            line, form = split_form(line)
+            how = describe_form(form)
             if expect == "accept":
                 if "ok" not in out:
-                    return evals, fail("a legal, well-typed %s was refused" % line[0], out, "accepted",
+                    return evals, fail("a legal, well-typed %s%s was refused" % (line[0], how), out, "accepted",
                                        "nixio/data_frame.py:" + line[0])
                 shadow_apply(sh, line)
             else:
                 if "err" not in out:
-                    return evals, fail("%s with %s was accepted" % (line[0], expect), out, "refused",
+                    return evals, fail("%s%s with %s was accepted" % (line[0], how, expect), out, "refused",
                                        "nixio/data_frame.py:" + line[0])
                 sh = before
-            f = check(sh, line[0] + ("" if expect == "accept" else " refused for " + expect))
+            f = check(sh, line[0] + how + ("" if expect == "accept" else " refused for " + expect))
             if f:
                 return evals, f
         s.reopen()
@@ -1130,6 +1397,22 @@ def oracle_history(ctx, k, rng, nops, fixed=None):
         return evals, f
     finally:
         s.close()
+
+
+def describe_form(form):
+    if not form:
+        return ""
+    how = {"array": "a NumPy structured array", "view": "a multi-field view table[[...]] of a structured array",
+           "voids": "a list of np.void records", "frame": "the structured array read from another data frame"}[
+        form.get("how", "array")]
+    extra = []
+    if form.get("rec"):
+        extra.append("fields %s" % ", ".join("%r:%s" % (f[0], f[1]) for f in form["rec"]))
+    if form.get("mem"):
+        extra.append("memory order %r" % (form["mem"],))
+    if form.get("pad"):
+        extra.append("padded")
+    return " (rows given as %s%s)" % (how, "; " + "; ".join(extra) if extra else "")
 
 
 def shadow_apply(sh, line):
@@ -1185,8 +1468,12 @@ def oracle_op(rng, sh):
         if refuse and rows:
             i = rng.randrange(len(rows))
             rows[i] = rows[i][:-1] if rng.random() < 0.5 else rows[i] + [["i", 0]]
-            return ["append_rows", rows], "a row of the wrong length"
-        return ["append_rows", rows], "accept"
+            if rng.random() < 0.4:
+                rows = level(rows, "short" if len(rows[i]) < len(types) else "long")
+            return with_form(["append_rows", rows], gen_form(rng, rows, names, types) if rng.random() < 0.4 else None), \
+                "a row of the wrong length"
+        return with_form(["append_rows", rows], gen_form(rng, rows, names, types) if rng.random() < 0.4 else None), \
+            "accept"
     if kind == "append_column":
         t = rng.choice(TYPES)
         dt = t if (rng.random() < 0.6 or n == 0) else None
@@ -1211,21 +1498,23 @@ def oracle_op(rng, sh):
         idx = [legal_row(rng, n)] if rng.random() < 0.5 else inc_list(rng, n)
         rows = gen_rows(rng, types, len(idx))
         if kind == "write_row_flat" and rows[0][0][0] != "s":
-            return ["write_row_flat", rows[0], [idx[0]]], "accept"
+            return with_form(["write_row_flat", rows[0], [idx[0]]],
+                             gen_form(rng, rows[:1], names, types) if rng.random() < 0.4 else None), "accept"
+        form = gen_form(rng, rows, names, types) if rng.random() < 0.4 else None
         if refuse:
             what = rng.choice(["oob", "neg_oob", "count", "short"])
             if what == "oob":
                 idx[-1] = rng.choice([n, n + 2])
-                return ["write_rows", rows, idx], "an out-of-range row"
+                return with_form(["write_rows", rows, idx], form), "an out-of-range row"
             if what == "neg_oob":
                 idx[0] = -n - 1
-                return ["write_rows", rows, idx], "an out-of-range row"
+                return with_form(["write_rows", rows, idx], form), "an out-of-range row"
             if what == "count":
                 return ["write_rows", rows + gen_rows(rng, types, 1), idx], "a wrong number of rows"
             i = rng.randrange(len(rows))
             rows[i] = rows[i][:-1] if rng.random() < 0.5 else rows[i] + [["i", 0]]
             return ["write_rows", rows, idx], "a row of the wrong length"
-        return ["write_rows", rows, idx], "accept"
+        return with_form(["write_rows", rows, idx], form), "accept"
     if kind == "write_column":
         c = rng.choice([0, m - 1, rng.randrange(m)])
         col = [gen_typed(rng, types[c]) for _ in range(n)]
@@ -1404,7 +1693,8 @@ def matches_known(entry, failure):
 def replay_failure(ctx, fj):
     """re-run the recorded oracle history (creation line + {"line", "expect"} entries)"""
     hist = fj["input"]
-    if not hist or not isinstance(hist[0], list) or not str(hist[0][0]).startswith("create"):
+    first = hist[0]["line"] if hist and isinstance(hist[0], dict) and "line" in hist[0] else (hist[0] if hist else None)
+    if not isinstance(first, list) or not str(first[0]).startswith("create"):
         fs = extra_fixed_checks(ctx)[1]
         return fs[0] if fs else None
     return oracle_history(ctx, 999999, ctx.rng, 0, fixed=hist)[1]
